@@ -181,6 +181,7 @@ def c09_events():
     ev.append(('missing-file', [], 'read_file ' + H(b'nofile.cfg'), '1 %s - 0' % b'file I/O error'.hex()))
     ev.append(('directory', ['mkdir ' + H(b'adir')], 'read_file ' + H(b'adir'), '1 %s - 0' % b'file I/O error'.hex()))
     ev.append(('write-ok', [], 'write_file ' + H(b'out.cfg'), '0 - - 0'))
+    ev.append(('write-ok-fsync', ['set_option 64 1'], 'write_file ' + H(b'out2.cfg'), '0 - - 0'))     # the fsync path of config_write_file
     ev.append(('write-fail-nodir', [], 'write_file ' + H(b'nodir/out.cfg'), '1 %s - 0' % b'file I/O error'.hex()))
     ev.append(('write-fail-isdir', ['mkdir ' + H(b'adir')], 'write_file ' + H(b'adir'), '1 %s - 0' % b'file I/O error'.hex()))
     return ev
